@@ -145,6 +145,7 @@ func LoadWorld(repo string, mods ...string) (*World, error) {
 		}
 		return a.Pos() < b.Pos()
 	})
+	w.findHelpers()
 	for _, f := range w.lunarFns {
 		canonicaliseComparisons(f)
 	}
@@ -268,6 +269,26 @@ func Anons(fn *ssa.Function) []*ssa.Function {
 	out := []*ssa.Function{fn}
 	for _, a := range fn.AnonFuncs {
 		out = append(out, Anons(a)...)
+	}
+	// closures of the transparent helpers fn calls (adopt.go); the helpers' own
+	// instructions are visited through Instrs(fn)
+	if len(helpers) > 0 && fn.Parent() == nil {
+		seen := map[*ssa.Function]bool{}
+		var add func(f *ssa.Function)
+		add = func(f *ssa.Function) {
+			for _, b := range f.Blocks {
+				for _, in := range b.Instrs {
+					if h := helperCall(in); h != nil && !seen[h.fn] {
+						seen[h.fn] = true
+						for _, a := range h.fn.AnonFuncs {
+							out = append(out, Anons(a)...)
+						}
+						add(h.fn)
+					}
+				}
+			}
+		}
+		add(fn)
 	}
 	return out
 }
